@@ -234,6 +234,10 @@ def monitor(c, out):
         if 'exc' in rec:
             return ('C15:raised', 'op %d %s raised %s' % (j, op[:2], rec['exc']))
         reads = {k: b for k, b in rec['reads']}
+        if rec['arena_reads'] != rec['reads']:
+            return ('C15:object-not-in-shared-storage',
+                    'op %d: bytes of the objects %s differ from the arena bytes at their (block, size) %s'
+                    % (j, rec['reads'], rec['arena_reads']))
         touched = set()
         if op[0] == 'new':
             k = nobj
@@ -306,14 +310,77 @@ def expected_bytes(op):
     return enc((ct * len(vals))(*vals))
 
 
+# ------------------------------------------------------------- shrinking a failing history
+def drop_op(ops, i):
+    """ops without op i; object numbers are renumbered, ops referring to a removed object go too"""
+    gone, ren, out = set(), {}, []
+    nobj = 0
+    for j, o in enumerate(ops):
+        creates = o[0] in ('new', 'rebuild')
+        refers = o[0] in ('drop', 'write', 'rebuild')
+        if j == i or (refers and o[1] in gone):
+            if creates:
+                gone.add(nobj)
+                nobj += 1
+            continue
+        o2 = list(o)
+        if refers:
+            o2[1] = ren[o[1]]
+        out.append(o2)
+        if creates:
+            ren[nobj] = sum(1 for x in out if x[0] in ('new', 'rebuild')) - 1
+            nobj += 1
+    return out
+
+
+def shrink(case, sig, budget=100):
+    def fails(c):
+        try:
+            o = core.run_driver('sharedmem_driver.py', dict(mode='mem', cases=[c]))[0]
+            m = monitor(c, o)
+        except Exception:
+            return False
+        return bool(m) and m[0] == sig
+    best = case
+    changed = True
+    while changed and budget > 0:
+        changed = False
+        i = len(best['ops']) - 1
+        while i >= 0 and budget > 0:
+            budget -= 1
+            c = dict(best, ops=drop_op(best['ops'], i))
+            if len(c['ops']) < len(best['ops']) and fails(c):
+                best = c
+                changed = True
+                i = min(i, len(best['ops']))
+            i -= 1
+    return best
+
+
 # ------------------------------------------------------------- run
 def judge(res, cases, outs, tag):
     terms = [to_coq(c, o) for c, o in zip(cases, outs)]
     codes, _ = core.coq_eval('C15' + tag, HEADER, core.chunks(terms, 100))
     bad = dict(codes)
+    first = True
     for i, (c, o) in enumerate(zip(cases, outs)):
         m = monitor(c, o)
         if m:
+            if first and not c.get('real'):
+                first = False
+                # cut after the op complained about, then remove ops one by one
+                cut = dict(c, ops=c['ops'][:len(o['obs'])])
+                for k in range(1, len(o['obs']) + 1):
+                    c2 = dict(c, ops=c['ops'][:k])
+                    m2 = monitor(c2, dict(obs=o['obs'][:k]))
+                    if m2 and m2[0] == m[0]:
+                        cut = c2
+                        break
+                small = shrink(cut, m[0])
+                o2 = core.run_driver('sharedmem_driver.py', dict(mode='mem', cases=[small]))[0]
+                m2 = monitor(small, o2)
+                if m2 and m2[0] == m[0]:
+                    c, o, m = small, o2, m2
             res.alarms.append(dict(signature=m[0], what=m[1][:900], replay=dict(case=c, impl=o['obs'])))
         elif i in bad:
             res.broken.append(dict(kind='correspondence', name='SharedMem model vs billiard.sharedctypes',
